@@ -44,6 +44,8 @@ var poolSrc = []string{
 	`null`, `true`, `false`,
 	`0`, `-1`, `1`, `255`, `256`, `2147483648`, `9007199254740993`, `9223372036854775807`, `9223372036854775808`,
 	`18446744073709551616`, `-9223372036854775808`, `1606938044258990275541962092341162602522202993782792835301376`,
+	// powers of two: products and shifts of sizes wrap to 0 or to the sign bit (seed C13-5: unit * pad_to_units == 2^64)
+	`4294967296`, `1152921504606846976`, `2305843009213693952`, `4611686018427387904`, `-4611686018427387904`, `65536`,
 	`0.5`, `-0.0`, `1e308`, `-1e308`, `nan`, `infinite`, `-infinite`, `1.5`, `1e11`, `1e18`,
 	`""`, `"a"`, `("a" * 8192)`, `"a\u0000b"`, `"å中😀"`, `"mp3"`, `"."`, `"f"`, `"[1,2"`,
 	`([255,254,0] | tobytes)`, `([1,2,3] | tobits)`,
@@ -61,6 +63,7 @@ var poolSrc = []string{
 	`([0x82, 0xd9, 51, ("あ" * 17), 0xd9, 60, ("é" * 30), 0xd9, 49, ("a" * 46), "中", 0xc4, 3, 0xe3, 0x81, 0x82] | tobytes | msgpack)`,
 	`("f" | open)`,
 	`{"indent":-1}`, `{"indent":1048576}`, `{"indent":-3, "array": true}`, `{"line_bytes":-5}`, `{"line_bytes":0}`, `{"bits_format":"nope"}`,
+	`{"unit":4294967296, "pad_to_units":4294967296}`, `{"unit":8, "pad_to_units":2305843009213693952}`, `{"line_bytes":4294967296, "display_bytes":4294967296}`,
 	`{"unit":0}`, `{"unit":-8}`, `{"display_bytes":-1, "depth":-1}`, `{"addrbase":1, "sizebase":99}`, `{"force":"x", "skip_gaps": 5}`,
 	`{"indent":1e18}`, `{"line_bytes":1e18, "display_bytes": 1e18}`, `{"attribute_prefix":""}`, `{"attribute_prefix":"", "indent": 1, "array": true}`, `{"depth": 1e18, "addrbase": 1e18}`,
 	`{"indent":"x", "comma":"", "comment":"ab"}`, `{"array":1, "seq":"x", "attribute_prefix": 1}`, `{"width": -1, "color": 7, "unicode": null}`,
@@ -607,6 +610,13 @@ func TestSeeds(t *testing.T) {
 	}
 	for _, c := range seeds {
 		r.single(c)
+	}
+	// two steps: state set from jq, then a function that reads it (a seeding
+	// agent's side finding: a non-string include path was an explicit panic;
+	// repaired in 2167189f).  The interpreter is thrown away afterwards.
+	for _, st := range []string{`{include_paths:[1]}`, `{include_paths:"x"}`, `{include_paths:[null,{}]}`, `{slurps:1}`, `{slurps:{a:[]}}`, `[]`, `null`} {
+		r.single(caseT{Fn: "_eval", Ar: 2, RawIn: `null`, RawCall: `(_global_state(` + st + `) | try _eval("include \"x\"; 1"; {}) catch "E"), (try ("1 | slurp(\"a\")" | _eval(.; {})) catch "E"), (try ("$a" | _eval(.; {})) catch "E")`})
+		r.reset()
 	}
 }
 
